@@ -725,4 +725,552 @@ theorem body_cu (cfg : Cfg) (st : St) (pfx : Str) (c : Cmd) (hc : c ≠ .flushRe
   | defaultCapRemove cap => simp only [body]; cu_auto
   | configCaps v => simp only [body]; cu_auto
 
+/-! ## the saved users.conf never holds a capability that memory has dropped -/
+
+theorem dictGet_dictSet_same {α β : Type} [DecidableEq α] (k : α) (v : β) (l : List (α × β)) :
+    C16.dictGet k (C16.dictSet k v l) = some v := by
+  unfold C16.dictSet
+  split
+  · rename_i h
+    induction l with
+    | nil => simp at h
+    | cons p ps ih =>
+      simp only [List.map_cons, C16.dictGet]
+      by_cases hp : p.1 = k
+      · simp [hp]
+      · simp only [hp, if_false]
+        apply ih
+        simpa [hp] using h
+  · rename_i h
+    induction l with
+    | nil => simp [C16.dictGet]
+    | cons p ps ih =>
+      have hp : p.1 ≠ k := by intro e; apply h; simp [e]
+      simp only [List.cons_append, C16.dictGet, hp, if_false]
+      apply ih
+      intro h'; apply h
+      simp only [List.any_cons, Bool.or_eq_true]; exact Or.inr h'
+
+theorem dictGet_map_other {α β : Type} [DecidableEq α] (k k' : α) (v : β) (l : List (α × β)) (hk : k' ≠ k) :
+    C16.dictGet k' (l.map (fun p => if p.1 = k then (k, v) else p)) = C16.dictGet k' l := by
+  induction l with
+  | nil => rfl
+  | cons p ps ih =>
+    simp only [List.map_cons, C16.dictGet]
+    by_cases hp : p.1 = k
+    · have h1 : p.1 ≠ k' := by rw [hp]; exact fun e => hk e.symm
+      simp only [hp, if_true, hk.symm, if_false]
+      first
+      | exact ih
+      | (simp only [h1, if_false]; exact ih)
+    · simp only [hp, if_false]
+      by_cases hp' : p.1 = k'
+      · simp [hp']
+      · simp only [hp', if_false]; exact ih
+
+theorem dictGet_append_other {α β : Type} [DecidableEq α] (k k' : α) (v : β) (l : List (α × β)) (hk : k' ≠ k) :
+    C16.dictGet k' (l ++ [(k, v)]) = C16.dictGet k' l := by
+  induction l with
+  | nil => simp [C16.dictGet, hk.symm]
+  | cons p ps ih =>
+    simp only [List.cons_append, C16.dictGet]
+    by_cases hp' : p.1 = k'
+    · simp [hp']
+    · simp only [hp', if_false]; exact ih
+
+theorem dictGet_dictSet_other {α β : Type} [DecidableEq α] (k k' : α) (v : β) (l : List (α × β)) (hk : k' ≠ k) :
+    C16.dictGet k' (C16.dictSet k v l) = C16.dictGet k' l := by
+  unfold C16.dictSet
+  split
+  · exact dictGet_map_other k k' v l hk
+  · exact dictGet_append_other k k' v l hk
+
+theorem dictGet_of_mem_nodup {α β : Type} [DecidableEq α] {l : List (α × β)} (h : (l.map (·.1)).Nodup)
+    {k : α} {v : β} (hm : (k, v) ∈ l) : C16.dictGet k l = some v := by
+  induction l with
+  | nil => cases hm
+  | cons p ps ih =>
+    simp only [List.map_cons, List.nodup_cons] at h
+    simp only [C16.dictGet]
+    rcases List.mem_cons.mp hm with rfl | hm
+    · simp
+    · have : p.1 ≠ k := by
+        intro e
+        apply h.1
+        rw [e]
+        exact List.mem_map_of_mem (f := (·.1)) hm
+      simp only [this, if_false]
+      exact ih h.2 hm
+
+theorem dictGet_append_left {α β : Type} [DecidableEq α] {l m : List (α × β)} {k : α} {v : β}
+    (h : C16.dictGet k l = some v) : C16.dictGet k (l ++ m) = some v := by
+  induction l with
+  | nil => simp [C16.dictGet] at h
+  | cons p ps ih =>
+    simp only [List.cons_append, C16.dictGet] at h ⊢
+    split
+    · rename_i hp; simpa [hp] using h
+    · rename_i hp; simp only [hp, if_false] at h; exact ih h
+
+/-- one record per id, none above `nextId` -/
+def IdsOk (st : St) : Prop := (st.users.map (·.1)).Nodup ∧ ∀ p ∈ st.users, p.1 ≤ st.nextId
+
+/-- the file on disk is what `users.flush()` writes for the present table -/
+def Saved (st : St) : Prop := st.ufile = some (C16.dumpUsers { users := st.users, nextId := st.nextId })
+
+/-- every capability of every account keeps being held by that account -/
+def UserGrow (st st' : St) : Prop :=
+  ∀ i u, st.user i = some u → ∃ u', st'.user i = some u' ∧ ∀ x ∈ u.caps, x ∈ u'.caps
+
+/-- every capability in the records `fu` is held, in memory, by the account with the same id -/
+def HeldBy (fu : List (Nat × C16.User)) (st : St) : Prop :=
+  ∀ p ∈ fu, ∀ x ∈ p.2.caps, ∃ u, st.user p.1 = some u ∧ x ∈ u.caps
+
+/-- **the saved file lags behind memory only by capabilities memory still has**: users.conf is
+the dump of records whose fields are line-safe and whose capabilities are all still held -/
+def FileOk (st : St) : Prop :=
+  ∀ t, st.ufile = some t → ∃ fu n, t = C16.dumpUsers { users := fu, nextId := n } ∧
+    (∀ p ∈ fu, C16.SafeUser p.2) ∧ HeldBy fu st
+
+theorem userGrow_refl (st : St) : UserGrow st st := fun _ u h => ⟨u, h, fun _ hx => hx⟩
+
+theorem userGrow_of_users_eq {st st' : St} (h : st'.users = st.users) : UserGrow st st' := by
+  intro i u hu
+  exact ⟨u, by unfold St.user at hu ⊢; rw [h]; exact hu, fun _ hx => hx⟩
+
+theorem userGrow_trans {a b c : St} (h1 : UserGrow a b) (h2 : UserGrow b c) : UserGrow a c := by
+  intro i u hu
+  obtain ⟨u', hu', h'⟩ := h1 i u hu
+  obtain ⟨u'', hu'', h''⟩ := h2 i u' hu'
+  exact ⟨u'', hu'', fun x hx => h'' x (h' x hx)⟩
+
+theorem userGrow_put {st st1 : St} {id : Nat} {u u' : C16.User} (hu : st.user id = some u)
+    (h1 : st1.users = st.users ∨ st1.users = C16.dictSet id u' st.users)
+    (hsub : ∀ x ∈ u.caps, x ∈ u'.caps) : UserGrow st (putUser st1 id u') := by
+  intro i v hv
+  unfold St.user putUser at *
+  simp only []
+  by_cases hi : i = id
+  · subst hi
+    rw [hu] at hv; injection hv with hv; subst hv
+    exact ⟨u', dictGet_dictSet_same _ _ _, hsub⟩
+  · refine ⟨v, ?_, fun _ hx => hx⟩
+    rw [dictGet_dictSet_other _ _ _ _ hi]
+    rcases h1 with h1 | h1
+    · rw [h1]; exact hv
+    · rw [h1, dictGet_dictSet_other _ _ _ _ hi]; exact hv
+
+/-- `setUser` either leaves the table alone or stores exactly the given record -/
+theorem setUser_users_cases (cfg : Cfg) (st : St) (id : Nat) (u : C16.User) :
+    ((st.setUser cfg id u).1.users = st.users ∧ (st.setUser cfg id u).2 ≠ .ok) ∨
+    ((st.setUser cfg id u).1.users = C16.dictSet id u st.users ∧ (st.setUser cfg id u).2 = .ok) := by
+  unfold St.setUser
+  split
+  · exact Or.inl ⟨rfl, by simp⟩
+  · simp only []
+    split
+    · exact Or.inl ⟨rfl, by simp⟩
+    · split
+      · exact Or.inl ⟨rfl, by simp⟩
+      · split
+        · exact Or.inl ⟨rfl, by simp⟩
+        · exact Or.inr ⟨rfl, rfl⟩
+    · split
+      · exact Or.inl ⟨rfl, by simp⟩
+      · exact Or.inr ⟨rfl, rfl⟩
+
+theorem setUser_ufile (cfg : Cfg) (st : St) (id : Nat) (u : C16.User) : (st.setUser cfg id u).1.ufile = st.ufile := by
+  unfold St.setUser
+  split
+  · rfl
+  · simp only []
+    split
+    · rfl
+    · split
+      · rfl
+      · split <;> rfl
+    · split <;> rfl
+
+theorem userGrow_setUser {cfg : Cfg} {st : St} {id : Nat} {u u' : C16.User} (hu : st.user id = some u)
+    (hsub : ∀ x ∈ u.caps, x ∈ u'.caps) : UserGrow st (st.setUser cfg id u').1 := by
+  rcases setUser_users_cases cfg st id u' with ⟨h, _⟩ | ⟨h, _⟩
+  · exact userGrow_of_users_eq h
+  · have := userGrow_put (st1 := st) hu (Or.inl rfl) hsub
+    intro i v hv
+    obtain ⟨v', hv', hh⟩ := this i v hv
+    refine ⟨v', ?_, hh⟩
+    unfold St.user putUser at *
+    rw [h]; exact hv'
+
+/-- how a command that ends in `finishSet` leaves the file: saved, or untouched with the table
+only grown -/
+def FileShape (st st' : St) : Prop := Saved st' ∨ (st'.ufile = st.ufile ∧ UserGrow st st')
+
+theorem finishSet_shape {cfg : Cfg} {st st0 : St} {id : Nat} {u u' : C16.User} {fl : Bool}
+    (hu : st.user id = some u) (h0 : st0.users = st.users) (hf : st0.ufile = st.ufile)
+    (hsub : ∀ x ∈ u.caps, x ∈ u'.caps) : FileShape st (finishSet cfg st0 id u' fl).1 := by
+  have hu0 : st0.user id = some u := by unfold St.user at hu ⊢; rw [h0]; exact hu
+  have g0 : UserGrow st st0 := userGrow_of_users_eq h0
+  unfold finishSet
+  simp only []
+  split
+  · cases fl
+    · right
+      exact ⟨(setUser_ufile cfg st0 id u').trans hf, userGrow_trans g0 (userGrow_setUser hu0 hsub)⟩
+    · left; rfl
+  · right
+    refine ⟨(setUser_ufile cfg st0 id u').trans hf, userGrow_trans g0 ?_⟩
+    rcases setUser_users_cases cfg st0 id u' with ⟨h, _⟩ | ⟨h, _⟩
+    · exact userGrow_put hu0 (Or.inl h) hsub
+    · exact userGrow_put hu0 (Or.inr h) hsub
+
+/-- the capability-changing commands: a failed save is visible in the reply -/
+theorem finishSet_shape_cap {cfg : Cfg} {st : St} {id : Nat} {u' : C16.User} :
+    FileShape st (finishSet cfg st id u').1 ∨ (finishSet cfg st id u').2 = false := by
+  unfold finishSet
+  simp only []
+  split
+  · left; left; rfl
+  · right; rfl
+
+/-! ### ids -/
+
+theorem setUser_nextId_ge (cfg : Cfg) (st : St) (id : Nat) (u : C16.User) : st.nextId ≤ (st.setUser cfg id u).1.nextId := by
+  unfold St.setUser
+  split
+  · exact Nat.le_refl _
+  · simp only []
+    have : st.nextId ≤ max st.nextId id := by omega
+    split
+    · exact this
+    · split
+      · exact this
+      · split <;> exact this
+    · split <;> exact this
+
+theorem ids_dictSet {l : List (Nat × C16.User)} {n id : Nat} (u : C16.User)
+    (h : (l.map (·.1)).Nodup ∧ ∀ p ∈ l, p.1 ≤ n) (hid : id ≤ n) :
+    ((C16.dictSet id u l).map (·.1)).Nodup ∧ ∀ p ∈ C16.dictSet id u l, p.1 ≤ n := by
+  refine ⟨C16.dictSet_nodup _ _ _ h.1, ?_⟩
+  intro p hp
+  rcases mem_dictSet hp with rfl | hp
+  · exact hid
+  · exact h.2 p hp
+
+theorem ids_setUser {cfg : Cfg} {st : St} (h : IdsOk st) (id : Nat) (u : C16.User) : IdsOk (st.setUser cfg id u).1 := by
+  have hmax : ∀ p ∈ st.users, p.1 ≤ max st.nextId id := fun p hp => by have := h.2 p hp; omega
+  have hput : IdsOk (putUser { st with nextId := max st.nextId id } id u) :=
+    ids_dictSet u ⟨h.1, hmax⟩ (by show id ≤ max st.nextId id; omega)
+  have hsame : IdsOk { st with nextId := max st.nextId id } := ⟨h.1, hmax⟩
+  unfold St.setUser
+  split
+  · exact h
+  · simp only []
+    split
+    · exact hsame
+    · split
+      · exact hsame
+      · split
+        · exact hsame
+        · exact hput
+    · split
+      · exact hsame
+      · exact hput
+
+theorem ids_putUser {st : St} (h : IdsOk st) {id : Nat} (hid : id ≤ st.nextId) (u : C16.User) : IdsOk (putUser st id u) :=
+  ids_dictSet u h hid
+
+theorem ids_finishSet {cfg : Cfg} {st st0 : St} (h : IdsOk st) (h0 : st0.users = st.users) (hn : st0.nextId = st.nextId)
+    {id : Nat} {u : C16.User} (hu : st.user id = some u) (u' : C16.User) (fl : Bool) :
+    IdsOk (finishSet cfg st0 id u' fl).1 := by
+  have h0' : IdsOk st0 := by unfold IdsOk; rw [h0, hn]; exact h
+  have hid : id ≤ st0.nextId := by rw [hn]; exact h.2 (id, u) (user_mem hu)
+  unfold finishSet
+  simp only []
+  split
+  · cases fl <;> exact ids_setUser h0' id u'
+  · exact ids_putUser (ids_setUser h0' id u') (Nat.le_trans hid (setUser_nextId_ge cfg st0 id u')) u'
+
+theorem ids_put_setUser {cfg : Cfg} {st : St} (h : IdsOk st) {id : Nat} {u : C16.User} (hu : st.user id = some u)
+    (u' u'' : C16.User) : IdsOk (putUser (st.setUser cfg id u').1 id u'') :=
+  ids_putUser (ids_setUser h id u') (Nat.le_trans (h.2 (id, u) (user_mem hu)) (setUser_nextId_ge cfg st id u')) u''
+
+theorem ids_of_eq {st st' : St} (h : IdsOk st) (e1 : st'.users = st.users) (e2 : st'.nextId = st.nextId) : IdsOk st' := by
+  unfold IdsOk; rw [e1, e2]; exact h
+
+macro "ids_auto" h:term "," hu:term : tactic => `(tactic|
+  ((repeat' split) <;>
+   (first
+    | with_reducible exact $h
+    | (refine ids_finishSet $h ?_ ?_ $hu _ _ <;> rfl)
+    | exact ids_setUser $h _ _
+    | (show IdsOk (flushU (St.setUser _ _ _ _).1); exact ids_setUser $h _ _)
+    | exact ids_put_setUser $h $hu _ _
+    | exact ids_of_eq $h rfl rfl
+    | (refine ⟨(List.Sublist.map _ List.filter_sublist).nodup ($h).1, ?_⟩
+       intro p hp; exact ($h).2 p (List.mem_filter.mp hp).1))))
+
+theorem body_ids (cfg : Cfg) (st : St) (pfx : Str) (c : Cmd) (hc : c ≠ .flushReload) (hr : c ≠ .reload)
+    (h : IdsOk st) : IdsOk (body cfg st pfx c).1 := by
+  have triv : st.user 0 = st.user 0 := rfl
+  cases c with
+  | flushReload => exact absurd rfl hc
+  | reload => exact absurd rfl hr
+  | register name pw =>
+    simp only [body, doRegister]
+    have happ : ∀ u : C16.User,
+        ((st.users ++ [(st.nextId + 1, u)]).map (·.1)).Nodup ∧ ∀ p ∈ st.users ++ [(st.nextId + 1, u)], p.1 ≤ st.nextId + 1 := by
+      intro u
+      refine ⟨?_, ?_⟩
+      · rw [List.map_append, List.nodup_append]
+        refine ⟨h.1, by simp, ?_⟩
+        intro a ha b hb
+        simp only [List.map_cons, List.map_nil, List.mem_singleton] at hb
+        subst hb
+        simp only [List.mem_map] at ha
+        obtain ⟨p, hp, rfl⟩ := ha
+        have := h.2 p hp
+        omega
+      · intro p hp
+        rcases List.mem_append.mp hp with hp | hp
+        · have := h.2 p hp; omega
+        · simp only [List.mem_singleton] at hp; subst hp; exact Nat.le_refl _
+    repeat' (first
+      | with_reducible exact h
+      | exact happ _
+      | split)
+  | unregister name pw =>
+    simp only [body]
+    refine withOther_ind (fun r => IdsOk r.1) h ?_
+    intro id u _ hu
+    ids_auto h, hu
+  | changename name newname pw =>
+    simp only [body]
+    split
+    · exact h
+    · refine withOther_ind (fun r => IdsOk r.1) h ?_
+      intro id u _ hu
+      ids_auto h, hu
+  | identify name pw =>
+    simp only [body]
+    split
+    · exact h
+    · refine withOther_ind (fun r => IdsOk r.1) h ?_
+      intro id u _ hu
+      ids_auto h, hu
+  | unidentify =>
+    simp only [body]
+    refine withCaller_ind (fun r => IdsOk r.1) h ?_
+    intro id u hu
+    ids_auto h, hu
+  | hostmaskAdd name hostmask pw =>
+    simp only [body]
+    split
+    · exact h
+    · refine withOther_ind (fun r => IdsOk r.1) h ?_
+      intro id u _ hu
+      ids_auto h, hu
+  | hostmaskRemove name hostmask pw =>
+    simp only [body]
+    split
+    · exact h
+    · refine withOther_ind (fun r => IdsOk r.1) h ?_
+      intro id u _ hu
+      ids_auto h, hu
+  | setPassword name old new =>
+    simp only [body]
+    split
+    · exact h
+    · refine withOther_ind (fun r => IdsOk r.1) h ?_
+      intro id u _ hu
+      ids_auto h, hu
+  | setSecure pw value =>
+    simp only [body]
+    split
+    · exact h
+    · refine withCaller_ind (fun r => IdsOk r.1) h ?_
+      intro id u hu
+      ids_auto h, hu
+  | capAdd name cap0 =>
+    simp only [body]
+    refine withOther_ind (fun r => IdsOk r.1) h ?_
+    intro id u _ hu
+    ids_auto h, hu
+  | capRemove name cap0 =>
+    simp only [body]
+    refine withOther_ind (fun r => IdsOk r.1) h ?_
+    intro id u _ hu
+    ids_auto h, hu
+  | chanCapAdd chan name cap =>
+    simp only [body]
+    split
+    · exact h
+    · refine withOther_ind (fun r => IdsOk r.1) h ?_
+      intro id u _ hu
+      ids_auto h, hu
+  | chanCapRemove chan name cap =>
+    simp only [body]
+    split
+    · exact h
+    · refine withOther_ind (fun r => IdsOk r.1) h ?_
+      intro id u _ hu
+      ids_auto h, hu
+  | chanCapSet chan caps => simp only [body]; ids_auto h, triv
+  | chanCapUnset chan caps => simp only [body]; ids_auto h, triv
+  | chanSetDefault chan v => simp only [body]; ids_auto h, triv
+  | ignoreAdd h0 => simp only [body]; ids_auto h, triv
+  | ignoreRemove h0 => simp only [body]; ids_auto h, triv
+  | defaultCapAdd cap => simp only [body]; ids_auto h, triv
+  | defaultCapRemove cap => simp only [body]; ids_auto h, triv
+  | configCaps v => simp only [body]; ids_auto h, triv
+
+/-! ### what each command does to the saved file -/
+
+/-- commands that can take a capability away from an account (adding one displaces its inverse) -/
+def Cmd.capChanging : Cmd → Bool
+  | .capAdd .. => true
+  | .capRemove .. => true
+  | .chanCapAdd .. => true
+  | .chanCapRemove .. => true
+  | _ => false
+
+/-- `register` from a hostmask with fewer than three non-wildcard characters: `newUser()` has saved
+the still empty account, the named one exists in memory only -/
+def WildReg (st st' : St) : Prop :=
+  ∃ u, st'.users = st.users ++ [(st.nextId + 1, u)] ∧
+    st'.ufile = some (C16.dumpUsers { users := st.users ++ [(st.nextId + 1, { hashed := true })], nextId := st.nextId + 1 })
+
+def Shape (st : St) (c : Cmd) (r : St × Bool) : Prop :=
+  FileShape st r.1 ∨ WildReg st r.1 ∨ (c.capChanging = true ∧ r.2 = false)
+
+theorem shape_same (st : St) (c : Cmd) (b : Bool) : Shape st c (st, b) :=
+  Or.inl (Or.inr ⟨rfl, userGrow_refl st⟩)
+
+theorem put_setUser_shape {cfg : Cfg} {st : St} {id : Nat} {u u' u'' : C16.User} (hu : st.user id = some u)
+    (hsub : ∀ x ∈ u.caps, x ∈ u''.caps) : FileShape st (putUser (st.setUser cfg id u').1 id u'') := by
+  right
+  refine ⟨setUser_ufile cfg st id u', ?_⟩
+  intro i v hv
+  unfold St.user putUser at *
+  simp only []
+  by_cases hi : i = id
+  · subst hi
+    rw [hu] at hv; injection hv with hv; subst hv
+    exact ⟨u'', dictGet_dictSet_same _ _ _, hsub⟩
+  · refine ⟨v, ?_, fun _ hx => hx⟩
+    rw [dictGet_dictSet_other _ _ _ _ hi]
+    rcases setUser_users_cases cfg st id u' with ⟨h, _⟩ | ⟨h, _⟩
+    · rw [h]; exact hv
+    · rw [h, dictGet_dictSet_other _ _ _ _ hi]; exact hv
+
+macro "shape_auto" hu:term : tactic => `(tactic|
+  ((repeat' split) <;>
+   (first
+    | with_reducible exact shape_same _ _ _
+    | (refine Or.inl (finishSet_shape $hu ?_ ?_ (fun x hx => hx)) <;> rfl)
+    | exact Or.inl (Or.inl rfl)
+    | exact Or.inl (put_setUser_shape $hu (fun x hx => hx))
+    | exact Or.inl (Or.inr ⟨rfl, userGrow_of_users_eq rfl⟩)
+    | (rcases finishSet_shape_cap with h | h
+       · exact Or.inl h
+       · exact Or.inr (Or.inr ⟨rfl, h⟩)))))
+
+theorem body_shape (cfg : Cfg) (st : St) (pfx : Str) (c : Cmd) (hc : c ≠ .flushReload) (hr : c ≠ .reload) :
+    Shape st c (body cfg st pfx c) := by
+  have triv : st.user 0 = st.user 0 := rfl
+  cases c with
+  | flushReload => exact absurd rfl hc
+  | reload => exact absurd rfl hr
+  | register name pw =>
+    simp only [body, doRegister]
+    repeat' (first
+      | with_reducible exact shape_same _ _ _
+      | exact Or.inl (Or.inl rfl)
+      | exact Or.inr (Or.inl ⟨_, rfl, rfl⟩)
+      | split)
+  | unregister name pw =>
+    simp only [body]
+    refine withOther_ind (fun r => Shape st _ r) (shape_same _ _ _) ?_
+    intro id u _ hu
+    shape_auto hu
+  | changename name newname pw =>
+    simp only [body]
+    split
+    · exact shape_same _ _ _
+    · refine withOther_ind (fun r => Shape st _ r) (shape_same _ _ _) ?_
+      intro id u _ hu
+      shape_auto hu
+  | identify name pw =>
+    simp only [body]
+    split
+    · exact shape_same _ _ _
+    · refine withOther_ind (fun r => Shape st _ r) (shape_same _ _ _) ?_
+      intro id u _ hu
+      shape_auto hu
+  | unidentify =>
+    simp only [body]
+    refine withCaller_ind (fun r => Shape st _ r) (shape_same _ _ _) ?_
+    intro id u hu
+    shape_auto hu
+  | hostmaskAdd name hostmask pw =>
+    simp only [body]
+    split
+    · exact shape_same _ _ _
+    · refine withOther_ind (fun r => Shape st _ r) (shape_same _ _ _) ?_
+      intro id u _ hu
+      shape_auto hu
+  | hostmaskRemove name hostmask pw =>
+    simp only [body]
+    split
+    · exact shape_same _ _ _
+    · refine withOther_ind (fun r => Shape st _ r) (shape_same _ _ _) ?_
+      intro id u _ hu
+      shape_auto hu
+  | setPassword name old new =>
+    simp only [body]
+    split
+    · exact shape_same _ _ _
+    · refine withOther_ind (fun r => Shape st _ r) (shape_same _ _ _) ?_
+      intro id u _ hu
+      shape_auto hu
+  | setSecure pw value =>
+    simp only [body]
+    split
+    · exact shape_same _ _ _
+    · refine withCaller_ind (fun r => Shape st _ r) (shape_same _ _ _) ?_
+      intro id u hu
+      shape_auto hu
+  | capAdd name cap0 =>
+    simp only [body]
+    refine withOther_ind (fun r => Shape st _ r) (shape_same _ _ _) ?_
+    intro id u _ hu
+    shape_auto hu
+  | capRemove name cap0 =>
+    simp only [body]
+    refine withOther_ind (fun r => Shape st _ r) (shape_same _ _ _) ?_
+    intro id u _ hu
+    shape_auto hu
+  | chanCapAdd chan name cap =>
+    simp only [body]
+    split
+    · exact shape_same _ _ _
+    · refine withOther_ind (fun r => Shape st _ r) (shape_same _ _ _) ?_
+      intro id u _ hu
+      shape_auto hu
+  | chanCapRemove chan name cap =>
+    simp only [body]
+    split
+    · exact shape_same _ _ _
+    · refine withOther_ind (fun r => Shape st _ r) (shape_same _ _ _) ?_
+      intro id u _ hu
+      shape_auto hu
+  | chanCapSet chan caps => simp only [body]; shape_auto triv
+  | chanCapUnset chan caps => simp only [body]; shape_auto triv
+  | chanSetDefault chan v => simp only [body]; shape_auto triv
+  | ignoreAdd h0 => simp only [body]; shape_auto triv
+  | ignoreRemove h0 => simp only [body]; shape_auto triv
+  | defaultCapAdd cap => simp only [body]; shape_auto triv
+  | defaultCapRemove cap => simp only [body]; shape_auto triv
+  | configCaps v => simp only [body]; shape_auto triv
+
 end C02
